@@ -56,7 +56,8 @@ def _case(draw, unit):
             'size': size,
             'N': draw(st.sampled_from([1, 1, 2])), 'C': draw(st.sampled_from([1, 2, 3])),
             'dtype': draw(st.sampled_from(['f64', 'f64', 'f64', 'f32'])),
-            'low': low, 'highs': his, 'filt_form': draw(st.sampled_from(['names', 'names', 'names', 'tuples'])),
+            'low': low, 'highs': his, 'zero_valued': [int(draw(st.integers(0, 3)) == 0) for _ in range(J + 1)],
+            'reused': draw(st.integers(0, 2)) == 0, 'filt_form': draw(st.sampled_from(['names', 'names', 'names', 'tuples'])),
             'rx': draw(core.recipe_strategy()), 'rp': draw(core.recipe_strategy()),
             'k': draw(st.integers(0, 10**6))}
 
@@ -128,7 +129,15 @@ def run_case(case):
     r.nontrivial = J >= 2 and (bool(labs) or some_absent)
     with dwtu.default_dtype(tdt):
         ib, iq = dtu.filt_args(b, q, case.get('filt_form', 'names'), inverse=True)
-        inv = DTCWTInverse(biort=ib, qshift=iq)
+        twin = {'qshift_06': 'qshift_a', 'qshift_a': 'qshift_06'}.get(q)
+        if case.get('reused') and twin:
+            # the module had a previous life with the other 10-tap q-shift set (load_state_dict in between)
+            r.label('reused_module')
+            inv = DTCWTInverse(biort=b, qshift=twin)
+            inv((torch.ones(1, 1, 8, 8, dtype=tdt), [torch.ones(1, 1, 6, 8, 8, 2, dtype=tdt), torch.ones(1, 1, 6, 4, 4, 2, dtype=tdt)]))
+            inv.load_state_dict(DTCWTInverse(biort=ib, qshift=iq).state_dict())
+        else:
+            inv = DTCWTInverse(biort=ib, qshift=iq)
     total = dwtu.pyr_total(lo_shape, hi_shapes)
     He, We = H + H % 2, W + W % 2
 
@@ -158,6 +167,12 @@ def run_case(case):
     if f32:
         dl = dl.astype(np.float32).astype(np.float64)
         dh = [h.astype(np.float32).astype(np.float64) for h in dh]
+    zv = case.get('zero_valued', [0] * (J + 1))
+    if zv[0]:
+        dl = np.zeros_like(dl)
+    dh = [np.zeros_like(h) if zv[j + 1] else h for j, h in enumerate(dh)]
+    r.label('explicit_zero_part' if (zv[0] and case['low'] == 'present') or any(
+        z and k == 'present' for z, k in zip(zv[1:], case['highs'])) else None)
     zl = dl if case['low'] == 'present' else np.zeros_like(dl)
     zh = [h if k == 'present' else np.zeros_like(h) for h, k in zip(dh, case['highs'])]
     want = np.stack([dtu.ref_inverse(zl[n, c], [h[n, c] for h in zh], b, q)
